@@ -135,6 +135,7 @@ package nsqd
 //@   props C09 C07 C10 C01
 //@   requires len(tmp) == 4 && topic != nil && topic.idFactory != nil && topic.nsqd != nil
 //@   ensures[errors] result1 != nil ==> isFatal(result1, "E_BAD_BODY") || isFatal(result1, "E_BAD_MESSAGE")
+//@   ensures[error-object] result1 != nil ==> unbox(result1, "*protocol.FatalClientErr") != nil
 //@   ensures[short-read] rErrs != old(rErrs) ==> result1 != nil
 //@   ensures[bad-count] rPos >= old(rPos) + 4 && (declLen(old(rPos)) <= 0 || (maxBodySize >= 0 && declLen(old(rPos)) > (maxBodySize - 4) / 5)) ==>
 //@        isFatal(result1, "E_BAD_BODY") && rPos == old(rPos) + 4
